@@ -36,4 +36,6 @@ Definition run (comp : Z) (inp : list Z) : list Z :=
   else if comp =? 81 then run_parse_string inp
   else if comp =? 82 then run_parse_stream inp
   else if comp =? 90 then run_backend inp
+  else if comp =? 100 then run_port inp
+  else if comp =? 101 then run_multi inp
   else [-3].
